@@ -19,7 +19,7 @@ try:
             print('%-40s PATCH-FAILED %s' % (name, r.stdout.decode()[-150:].replace('\n', ' '))); continue
         c = subprocess.run(['clang', '-fsyntax-only', '-DHAVE_CONFIG_H', '-I' + work, '-DSYSCONFDIR="/e"', '-DMODULESDIR="/m"', '-DLOGDIR="/l"'] +
                            [os.path.join(work, f) for f in sorted(set(re.findall(r'^\+\+\+ b/(\S+\.c)', open(patch).read(), re.M)))], stdout=subprocess.PIPE, stderr=subprocess.STDOUT)
-        if c.returncode != 0:
+        if c.returncode != 0 and 'no input files' not in c.stdout.decode():
             print('%-40s DOES-NOT-COMPILE %s' % (name, c.stdout.decode()[-200:].replace('\n', ' '))); continue
         bad = []
         for pid in claimed:
